@@ -44,7 +44,11 @@ class QInteger(QToken):
 
     @staticmethod
     def parse(string: str, namespace: dict) -> QToken:
-        return QInteger(int(string))
+        try:
+            return QInteger(int(string))
+        except ValueError:
+            # e.g. more digits than int() accepts (sys.get_int_max_str_digits())
+            raise QueryParseException("Integer literal is too long") from None
 
     @staticmethod
     def check(string: str):
